@@ -70,7 +70,8 @@ Section Result.
   Proof.
     unfold phase2. destruct (Turn.step F (turn s) _) as [t2 outs2].
     destruct (execute_queue cfg fuel _ false) eqn:EQ; try discriminate.
-    - destruct (death_check cfg fuel _ true); [apply exit_stopped|discriminate].
+    - destruct (run_slot cfg fuel _ LPhase2 _ _); [|discriminate].
+      destruct (death_check cfg fuel _ true); [apply exit_stopped|discriminate].
     - intros H. inversion H; subst. eapply execute_queue_stopped. exact EQ.
   Qed.
 
@@ -79,6 +80,7 @@ Section Result.
     unfold one_turn. destruct (Turn.step F (turn s) _) as [t' outs].
     destruct outs as [|o [|o2 outs]]; try discriminate; [|destruct o; discriminate]. destruct o; try discriminate.
     destruct (match get_unit (units s) id with Some _ => false | None => true end); [discriminate|].
+    destruct (run_slot cfg fuel _ LPhase1 id id) as [s2|]; [|discriminate].
     destruct (death_check cfg fuel _ false) as [s3|]; [|discriminate].
     destruct (has_flag s3 id _); [apply phase2_stopped|].
     destruct (_ && _); [apply phase2_stopped|].
